@@ -158,6 +158,14 @@ impl MqttState {
         }
         self.outgoing_rel.clear();
 
+        // a publish parked on a packet id collision was accepted but never written. It is the
+        // newest message, so it goes last, and unnumbered: the id it was waiting for belongs to
+        // one of the messages above
+        if let Some(mut publish) = self.collision.take() {
+            publish.pkid = 0;
+            pending.push(Request::Publish(publish));
+        }
+
         // remove packed ids of incoming qos2 publishes
         self.incoming_pub.clear();
 
